@@ -21,6 +21,9 @@ CLAIMED = {
  'C14': dict(cat='proof', tech='Coq proof of the request codec and dispatch (induction over the CA list) + correspondence + oracle',
    text='request payload/decoder are inverse for all 24-bit values, send_request frame fields, notify dispatches a request to exactly the operational owners in order (induction over any CA list), EE00 answered by a claim from the held address, CAs without address silent; real requester/responder stacks checked by an oracle and replayed on the model',
    note='data page 1 requests are sent under PGN 0x1EA00 and treated by receivers as ordinary messages (safety half only, recorded reading)'),
+ 'C16': dict(cat='proof', tech='Coq proof over translator-generated definitions (DTC/lamps/DM22) and the DM1 payload model + item correspondence + end-to-end oracle',
+   text='DTC pack/unpack inverse and at the J1939-73 bit positions for all 19/5/7-bit values; all 5^4 lamp combinations (finite, exhaustive by vm_compute lifted with forallb_forall); DM1 parse(build) = identity for every non-empty list of in-range trouble codes (induction); DM22 layout; definitions regenerated from /repo, DM1 payload model tied by item correspondence; real DM1 sender/subscribers on real stacks with 1..440 codes, cycle times and stop_send checked by an oracle',
+   note='the cyclic-send state machine is checked on the real code only (oracle) plus C12 timer theorems; FD transports of DM1 are exercised by C02/C11 scenarios, not here'),
 }
 props = [json.loads(l) for l in open(os.path.join(ROOT, 'properties.jsonl'))]
 old = {}
